@@ -147,3 +147,71 @@ theorem nodup_keys_erase (l : List (κ × α)) (k : κ) (h : (keys l).Nodup) :
 
 end AL
 end DefconModel
+
+namespace DefconModel
+namespace AL
+variable {κ : Type} {α : Type} [DecidableEq κ]
+
+theorem mem_of_get? {l : List (κ × α)} {k : κ} {v : α} (h : get? l k = some v) : (k, v) ∈ l := by
+  induction l with
+  | nil => simp at h
+  | cons p r ih =>
+    obtain ⟨k', v'⟩ := p
+    by_cases h1 : k' = k
+    · subst h1; simp at h; simp [h]
+    · simp [h1] at h; exact List.mem_cons_of_mem _ (ih h)
+
+theorem mem_set {l : List (κ × α)} {k : κ} {v : α} {p : κ × α} (h : p ∈ set l k v) :
+    p = (k, v) ∨ p ∈ l := by
+  induction l with
+  | nil => simp [set] at h; exact Or.inl h
+  | cons q r ih =>
+    obtain ⟨k', v'⟩ := q
+    by_cases h1 : k' = k
+    · subst h1
+      simp [set] at h
+      rcases h with h | h
+      · exact Or.inl h
+      · exact Or.inr (List.mem_cons_of_mem _ h)
+    · simp [set, h1] at h
+      rcases h with h | h
+      · exact Or.inr (by simp [h])
+      · rcases ih h with h | h
+        · exact Or.inl h
+        · exact Or.inr (List.mem_cons_of_mem _ h)
+
+theorem mem_erase {l : List (κ × α)} {k : κ} {p : κ × α} (h : p ∈ erase l k) : p ∈ l := by
+  induction l with
+  | nil => simp [erase] at h
+  | cons q r ih =>
+    obtain ⟨k', v'⟩ := q
+    by_cases h1 : k' = k
+    · simp [erase, h1] at h; exact List.mem_cons_of_mem _ h
+    · simp [erase, h1] at h
+      rcases h with h | h
+      · simp [h]
+      · exact List.mem_cons_of_mem _ (ih h)
+
+theorem get?_of_mem_nodup {l : List (κ × α)} {k : κ} {v : α} (hn : (keys l).Nodup) (h : (k, v) ∈ l) :
+    get? l k = some v := by
+  induction l with
+  | nil => simp at h
+  | cons q r ih =>
+    obtain ⟨k', v'⟩ := q
+    simp [keys] at hn
+    simp at h
+    rcases h with h | h
+    · obtain ⟨rfl, rfl⟩ := h; simp
+    · have : k' ≠ k := by
+        intro e; subst e; exact hn.1 v h
+      simp [this]
+      exact ih (by simpa [keys] using hn.2) h
+
+@[simp] theorem contains_set (l : List (κ × α)) (k k2 : κ) (v : α) :
+    contains (set l k v) k2 = (decide (k = k2) || contains l k2) := by
+  unfold contains
+  rw [get?_set]
+  by_cases h : k = k2 <;> simp [h]
+
+end AL
+end DefconModel
